@@ -35,8 +35,8 @@ const STACK: u16 = 0xBF00;
 fn block() -> impl Strategy<Value = Vec<u8>> {
     prop_oneof![
         8 => Just(vec![0x00u8]),
-        4 => (0u8..8, any::<u8>()).prop_filter("not (HL)", |(r, _)| *r != 6).prop_map(|(r, n)| vec![0x06 | (r << 3), n]),
-        4 => (0x80u8..=0xBF).prop_filter("no (HL) operand", |op| op & 7 != 6).prop_map(|op| vec![op]),
+        4 => (0u8..7, any::<u8>()).prop_map(|(r, n)| { let r = if r == 6 { 7 } else { r }; vec![0x06 | (r << 3), n] }),
+        4 => (0x80u8..=0xBF).prop_map(|op| vec![if op & 7 == 6 { op | 1 } else { op }]),
         3 => Just(vec![0xFBu8]),
         2 => Just(vec![0xF3u8]),
         2 => Just(vec![0x76u8]),
